@@ -373,6 +373,19 @@ def all_vectors(lin: str) -> list:
     return [dict(zip(OPTS[lin], bits)) for bits in itertools.product([True, False], repeat=len(OPTS[lin]))]
 
 
+COMPANIONS = {
+    "aaa_tokio.rs": "\n".join([
+        "use tokio::fs;", "use tokio::time::sleep;", "use tokio::net::TcpStream;", "",
+        "async fn load_co1(p: &str, d: std::time::Duration) -> usize {", "    let text = fs::read_to_string(p).await;", "    sleep(d).await;",
+        '    let conn = TcpStream::connect("127.0.0.1:80").await;', "    measure_co1(text, conn)", "}", ""]),
+    "aab_std.rs": "\n".join([
+        "use std::fs;", "use std::thread::sleep;", "use std::net::TcpStream;", "",
+        "fn load_co2(p: &str, d: std::time::Duration, items: Vec<String>) -> usize {", "    let text = fs::read_to_string(p).unwrap();", "    sleep(d);",
+        '    let conn = TcpStream::connect("127.0.0.1:80").expect("conn");', "    for it in items.iter() {", "        keep_co2(it.clone());", "    }",
+        "    measure_co2(text, conn)", "}", ""]),
+}
+
+
 def check(case) -> Case:
     text, atoms = rr.render(case)
     only = case.get("only") or list(LINTERS)
@@ -386,7 +399,7 @@ def check(case) -> Case:
         rounds.append({lin: per[lin][i] for lin in only if i < len(per[lin])})
     failures = []
     established = {}
-    with Project({FILE: text}) as p:
+    with Project({FILE: text, **COMPANIONS}) as p:
         for ri, vecs in enumerate(rounds):
             p.set_config(config_for(vecs))
             for lin, vec in vecs.items():
@@ -405,6 +418,15 @@ def check(case) -> Case:
                     failures.append(Failure(f"{CMD[lin]}|anomaly|foreign-violation", {"violations": bad[:3], "options": vec, "source": text}))
                     vs = [v for v in vs if v not in bad]
                 failures.extend(judge(lin, vec, atoms, vs, text, established))
+                if ri == 0:
+                    # the same file after two other Rust files (one importing tokio's fs/time/net, one importing std's) in ONE
+                    # run: what the earlier files import or call must not change this file's verdicts
+                    r2 = runner.run_cli([CMD[lin], "--format", "json", "aaa_tokio.rs", "aab_std.rs", FILE], cwd=p.root)
+                    mine = sorted((v["rule_id"], v["line"], v["column"], v["message"]) for v in r2.violations if v["file_path"].endswith(FILE))
+                    alone = sorted((v["rule_id"], v["line"], v["column"], v["message"]) for v in vs)
+                    if r2.exit in (0, 1) and mine != alone:
+                        failures.append(Failure(f"{CMD[lin]}|company|judged-differently-after-other-files",
+                                                {"alone": alone[:6], "after_other_files": mine[:6], "source": text, "companions": COMPANIONS}))
     # ---- coverage book-keeping
     labels = set()
     triples = set()
